@@ -12,10 +12,12 @@
    with a defective guard take the comparison as a parameter ([strict : bool]) so that both
    the code as it is ([strict = false]) and the repaired code ([strict = true]) are
    present; which of the two /repo currently contains is re-read from the C source on every
-   run by translator/facts_c09.py (constants C09_* of Gen/Generated.v) and used by the
-   [_current] definitions, which are what the per-run correspondence evaluates. *)
+   run by translator/facts_c09.py (constants C09_* of Gen/Generated.v); the per-run
+   correspondence (harness/props/c09.py) instantiates the parameters with these constants.
+   This file deliberately does NOT import Gen/Generated.v, so the theorems do not have to be
+   re-checked when another property's facts change that file. *)
 From Coq Require Import List ZArith Bool Lia.
-From TskVerif Require Import Base.Common Gen.Generated.
+From TskVerif Require Import Base.Common.
 Import ListNotations.
 Open Scope Z_scope.
 
@@ -205,14 +207,6 @@ Definition link_ancestors_entry (strict_samples strict_ancestors has_edge_metada
   if has_edge_metadata then Err E_LIBRARY else
   if (zlen samples =? 0) || (zlen ancestors =? 0) then Err E_LIBRARY else
   link_ancestors_init strict_samples strict_ancestors num_nodes samples ancestors.
-
-(* the guards /repo contains now (Gen/Generated.v, re-read from tables.c on every run) *)
-Definition ibd_within_init_current := ibd_within_init C09_ibd_within_ge.
-Definition ibd_between_init_current := ibd_between_init C09_ibd_between_ge.
-Definition link_ancestors_init_current :=
-  link_ancestors_init C09_ancestor_mapper_samples_ge C09_ancestor_mapper_ancestors_ge.
-Definition link_ancestors_entry_current :=
-  link_ancestors_entry C09_ancestor_mapper_samples_ge C09_ancestor_mapper_ancestors_ge.
 
 (* c/tskit/genotypes.c variant_init_samples_and_index_map (l.90-131): alt_sample_index_map =
    malloc(num_nodes) memset 0xff; flags[u] read after the bound check *)
@@ -416,8 +410,6 @@ Definition site_table_set_columns (metadata_offset_checked : bool)
   do _ <- read_prefix metadata_offset 0 (Z.to_nat (n2 + 1));
   Ok n2.
 
-Definition site_table_set_columns_current := site_table_set_columns C09_site_metadata_offset_checked.
-Definition mutation_table_set_columns_current := site_table_set_columns C09_mutation_metadata_offset_checked.
 
 (* trees.c tsk_treeseq_two_branch_count_stat (l.3149): row_indexes[n_rows ? n_rows - 1 : 0]
    and row_indexes[0] are read from an array of n_rows elements (finding C09-N3) *)
@@ -543,7 +535,7 @@ Fixpoint strictly_increasing (w : list fl) : Prop :=
 (* 5. map_mutations: Tree_map_mutations (module l.12593-12598: genotypes must have
       num_samples elements) and tsk_tree_map_mutations (trees.c l.7252-7266): genotype range
       [-1, 64), allele_count[64] indexed by allele < num_alleles <= 64 *)
-Definition HARTIGAN_MAX_ALLELES : Z := C09_hartigan_max_alleles.   (* #define in trees.c, re-read every run *)
+Definition HARTIGAN_MAX_ALLELES : Z := 64.   (* #define in trees.c; compared with the re-read C09_hartigan_max_alleles on every run *)
 
 Fixpoint genotypes_scan (genotypes : list Z) (j : Z) (n : nat) (max_allele : Z) : res Z :=
   match n with
